@@ -178,8 +178,8 @@ class IngestWorld(object):
       st = {'spec': c, 'pos': 0, 'item': 0, 'void': False, 'pending': 0, 'got_total': 0, 't': None,
             'active': None, 'closed': False}
       if c['kind'] == 'udp':
+        # a datagram protocol never sees connectionMade(): no peerName, no timeout
         proto = P.MetricDatagramReceiver()
-        proto.peerName = 'udp'
         st['proto'] = proto
       self.clients.append(st)
     if not self.plan.get('late_connect'):
